@@ -11,6 +11,9 @@ import Rdm.Lemmas.ElectreTermination
 import Rdm.Lemmas.ElectreRefine
 import Rdm.Lemmas.ElectreSliceFlat
 import Mathlib.Tactic.NormNum
+import Rdm.Lemmas.E2EMethods
+import Rdm.Lemmas.E2EMethodsElectre
+import Rdm.Lemmas.E2EMethodsExamples
 namespace Rdm.Props.C05
 open Rdm
 
@@ -234,6 +237,152 @@ example : ∃ ps, rank (⟨2, [1, 1/2, 1/4, 1]⟩ : Matrix Rat) defaultDistillat
     intro x hx
     simp only [List.mem_cons, List.not_mem_nil, or_false] at hx
     rcases hx with rfl | rfl | rfl | rfl <;> norm_num)
+
+/-! ## end to end: whole requests (`decideWith` / `Rdm.decide`, Model/Decide.lean)
+
+  Whatever biases ran before — every request, every bias list, every stream function, no bounds —, the answer
+  of `electreIII` is the method's defined answer on the state that reached it (`resp.final`).
+  `e2emElectreEntries resp.result` reads the response back as the list `ElectreIII` returned (what the C05
+  checkers are evaluated on).  Helper lemmas: Rdm/Lemmas/E2EMethods*.lean. -/
+
+/-- **the parameters in force**: no bias exchanges the method or touches the distillation function — the
+    request's parsed parameters are ELECTRE parameters with distillation function `dist` iff the parameters
+    that reach `Evaluate` are (the per-criterion thresholds and weights `ec` are what the biases left of them) -/
+theorem decideWith_electre_parameters {α : Type} [Num α] (exp : α → α) (aspOrder : List (WCrit α) → List (WCrit α))
+    (req : Request α) (g : Int → Draws α) (resp : Response α) (h : decideWith exp aspOrder req g = .ok resp)
+    (dist : LinFun α) :
+    (∃ ec₀, req.mp = some (.electre ec₀ dist)) ↔ (∃ ec, resp.final.mp = .electre ec dist) := by
+  constructor
+  · rintro ⟨ec₀, hmp⟩
+    obtain ⟨ec, _, hfin, _⟩ := e2em_decideWith_electre h hmp
+    exact ⟨ec, hfin⟩
+  · rintro ⟨ec, hfin⟩
+    exact (e2em_decideWith_electre_of_final h hfin).1
+
+/-- **L1, the response IS `ElectreIII` of the final state** (any number type): if the parameters that reach
+    `Evaluate` are `.electre ec dist`, then `ElectreIII` answered on the considered alternatives and criteria of
+    the final state, and `result` is that answer, entry by entry (`evaluation` = the pair of indices) -/
+theorem decideWith_electre_result_is_electreIII {α : Type} [Num α] (exp : α → α)
+    (aspOrder : List (WCrit α) → List (WCrit α)) (req : Request α) (g : Int → Draws α) (resp : Response α)
+    (ec : KMap (ECrit α)) (dist : LinFun α) (h : decideWith exp aspOrder req g = .ok resp)
+    (hfin : resp.final.mp = .electre ec dist) :
+    ∃ r, electreIII resp.final.co resp.final.crit ec dist = .ok r ∧
+      resp.result = r.map (Linked.mapEv fun p => .electre p.1 p.2) ∧ e2emElectreEntries resp.result = r := by
+  obtain ⟨_, r, hr, hres⟩ := e2em_decideWith_electre_of_final h hfin
+  exact ⟨r, hr, hres, by rw [hres, e2emElectreEntries_map]⟩
+
+/-- **L1, the indices follow the method's definition end to end** (over `Rat`): for a request whose parsed
+    parameters are ELECTRE parameters with distillation function `dist`, if `MakeDecision` answers then — with
+    `ec` the ELECTRE criteria the biases left — the credibility matrix `m` of the considered alternatives of
+    the FINAL state exists, is square with one row per alternative of `choseToMake`; both distillations of `m`
+    answered with one class number per alternative; these class numbers are those of the declarative
+    distillations of `Spec.C05` (refinement theorem), consecutive from 1; and the response is `EvaluateRanking`
+    of them over `choseToMake` — entry i carries (asc i, desc i) — so that the links clause of the checker
+    holds.  No domain restriction: this holds whenever the model answers. -/
+theorem decideWith_electre_follows_definition (exp : Rat → Rat)
+    (aspOrder : List (WCrit Rat) → List (WCrit Rat)) (req : Request Rat) (g : Int → Draws Rat)
+    (resp : Response Rat) (ec₀ : KMap (ECrit Rat)) (dist : LinFun Rat)
+    (h : decideWith exp aspOrder req g = .ok resp) (hmp : req.mp = some (.electre ec₀ dist)) :
+    ∃ ec m asc desc,
+      resp.final.mp = .electre ec dist ∧
+      credibilityMatrix resp.final.co resp.final.crit ec = .ok m ∧
+      m.size = req.chosen.length ∧ m.data.length = m.size * m.size ∧
+      rankAscending m dist = .ok asc ∧ rankDescending m dist = .ok desc ∧
+      asc.length = req.chosen.length ∧ desc.length = req.chosen.length ∧
+      Spec.C05.specAscending m dist = some asc ∧ Spec.C05.specDescending m dist = some desc ∧
+      Spec.C05.consecutiveFrom1 asc = true ∧ Spec.C05.consecutiveFrom1 desc = true ∧
+      e2emElectreEntries resp.result = evaluateRanking asc desc req.chosen ∧
+      Spec.C05.linksOk (e2emElectreEntries resp.result) = true := by
+  obtain ⟨ec, r, hfin, hr, hres⟩ := e2em_decideWith_electre h hmp
+  obtain ⟨hco, hlen⟩ := e2em_decideWith_co h
+  obtain ⟨m, asc, desc, hm, hasc, hdesc, hrk, hsz, hsq, hal, hdl⟩ := e2em_electreIII_ok hr
+  rw [hco] at hrk
+  rw [hlen] at hsz hal hdl
+  have hent : e2emElectreEntries resp.result = evaluateRanking asc desc req.chosen := by
+    rw [hres, e2emElectreEntries_map, hrk]
+  refine ⟨ec, m, asc, desc, hfin, hm, hsz, hsq, hasc, hdesc, hal, hdl,
+    rankAscending_refines m dist hsq asc hasc, rankDescending_refines m dist hsq desc hdesc,
+    rankAscending_consecutive m dist asc hasc, rankDescending_consecutive m dist desc hdesc, hent, ?_⟩
+  rw [hent]
+  exact linksOk_evaluateRanking asc desc req.chosen hal hdl
+
+/-- … spelled out per entry: entry i of the response is alternative `choseToMake[i]` with the two class
+    numbers of position i, and it lists b exactly when b is another entry j with asc i ≤ asc j and
+    desc i ≤ desc j (`links_characterisation` on the response) -/
+theorem decideWith_electre_entries (exp : Rat → Rat) (aspOrder : List (WCrit Rat) → List (WCrit Rat))
+    (req : Request Rat) (g : Int → Draws Rat) (resp : Response Rat) (ec₀ : KMap (ECrit Rat)) (dist : LinFun Rat)
+    (h : decideWith exp aspOrder req g = .ok resp) (hmp : req.mp = some (.electre ec₀ dist)) :
+    ∃ asc desc : List Int, ∃ (ha : asc.length = req.chosen.length) (hd : desc.length = req.chosen.length),
+      (e2emElectreEntries resp.result).length = req.chosen.length ∧
+      ∀ (i : Nat) (hi : i < req.chosen.length) (hi' : i < (e2emElectreEntries resp.result).length),
+        (e2emElectreEntries resp.result)[i].id = req.chosen[i] ∧
+        (e2emElectreEntries resp.result)[i].ev = (asc[i], desc[i]) ∧
+        ∀ b, b ∈ (e2emElectreEntries resp.result)[i].links ↔
+          ∃ (j : Nat) (hj : j < req.chosen.length), j ≠ i ∧ req.chosen[j] = b ∧ asc[i] ≤ asc[j] ∧ desc[i] ≤ desc[j] := by
+  obtain ⟨_, _, asc, desc, _, _, _, _, _, _, hal, hdl, _, _, _, _, hent, _⟩ :=
+    decideWith_electre_follows_definition exp aspOrder req g resp ec₀ dist h hmp
+  refine ⟨asc, desc, hal, hdl, by rw [hent]; exact el_evaluateRanking_length _ _ _ hal hdl, ?_⟩
+  intro i hi hi'
+  have := el_evaluateRanking_getElem asc desc req.chosen hal hdl i hi
+  simp only [hent]
+  exact this
+
+/-- **in the domain of the property** the credibilities behind the response are in [0,1] with diagonal 1: if
+    every criterion of the FINAL state has in-domain thresholds in the final ELECTRE criteria -/
+theorem decideWith_electre_credibilities_in_unit_interval (exp : Rat → Rat)
+    (aspOrder : List (WCrit Rat) → List (WCrit Rat)) (req : Request Rat) (g : Int → Draws Rat)
+    (resp : Response Rat) (ec : KMap (ECrit Rat)) (dist : LinFun Rat)
+    (h : decideWith exp aspOrder req g = .ok resp) (hfin : resp.final.mp = .electre ec dist)
+    (hne : resp.final.crit ≠ [])
+    (hg : ∀ c ∈ resp.final.crit, ∀ t, ec.get? c.id = some t → Spec.C05.critInDomain t = true) :
+    ∃ m, credibilityMatrix resp.final.co resp.final.crit ec = .ok m ∧ m.size = req.chosen.length ∧
+      ∀ i j, i < req.chosen.length → j < req.chosen.length →
+        (0 ≤ m.at i j ∧ m.at i j ≤ 1) ∧ (i = j → m.at i j = 1) := by
+  obtain ⟨r, hr, _⟩ := decideWith_electre_result_is_electreIII exp aspOrder req g resp ec dist h hfin
+  obtain ⟨m, _, _, hm, _⟩ := e2em_electreIII_ok hr
+  obtain ⟨_, hlen⟩ := e2em_decideWith_co h
+  obtain ⟨hsz, hall⟩ := credibility_matrix_in_unit_interval resp.final.co resp.final.crit hne ec hg m hm
+  rw [hlen] at hsz hall
+  exact ⟨m, hm, hsz, hall⟩
+
+/-- **C05 for `Rdm.decide`** (`MakeDecision` with the registered generators read from a seed table) -/
+theorem decide_electre_follows_definition (exp : Rat → Rat) (req : Request Rat) (seeds : Seeds Rat)
+    (resp : Response Rat) (ec₀ : KMap (ECrit Rat)) (dist : LinFun Rat)
+    (h : Rdm.decide exp req seeds = .ok resp) (hmp : req.mp = some (.electre ec₀ dist)) :
+    ∃ ec m asc desc,
+      resp.final.mp = .electre ec dist ∧
+      credibilityMatrix resp.final.co resp.final.crit ec = .ok m ∧
+      m.size = req.chosen.length ∧ m.data.length = m.size * m.size ∧
+      rankAscending m dist = .ok asc ∧ rankDescending m dist = .ok desc ∧
+      asc.length = req.chosen.length ∧ desc.length = req.chosen.length ∧
+      Spec.C05.specAscending m dist = some asc ∧ Spec.C05.specDescending m dist = some desc ∧
+      Spec.C05.consecutiveFrom1 asc = true ∧ Spec.C05.consecutiveFrom1 desc = true ∧
+      e2emElectreEntries resp.result = evaluateRanking asc desc req.chosen ∧
+      Spec.C05.linksOk (e2emElectreEntries resp.result) = true :=
+  decideWith_electre_follows_definition exp _ req _ resp ec₀ dist h hmp
+
+/-- the hypotheses are satisfiable: an ELECTRE III request (default distillation function, in-domain thresholds)
+    over four known alternatives, three of them to choose from, with a fatigue that fires and rewrites every
+    value, a preference reversal that does not fire and a disabled entry — the model answers, and the answer
+    is the ranking `EvaluateRanking` builds from the declarative distillations of the final state's matrix -/
+example : ∃ resp ec m asc desc, Rdm.decide id e2emExElectre e2eExSeeds = .ok resp ∧
+    resp.final.mp = .electre ec defaultDistillation ∧
+    credibilityMatrix resp.final.co resp.final.crit ec = .ok m ∧
+    Spec.C05.specAscending m defaultDistillation = some asc ∧
+    Spec.C05.specDescending m defaultDistillation = some desc ∧
+    e2emElectreEntries resp.result = evaluateRanking asc desc ["c", "a", "b"] := by
+  obtain ⟨resp, h⟩ := e2e_ok_of_isOk (x := Rdm.decide id e2emExElectre e2eExSeeds) (by decide +kernel)
+  obtain ⟨ec, m, asc, desc, hfin, hm, _, _, _, _, _, _, ha, hd, _, _, hent, _⟩ :=
+    decide_electre_follows_definition id _ _ resp _ _ h rfl
+  exact ⟨resp, ec, m, asc, desc, h, hfin, hm, ha, hd, hent⟩
+
+/-- … and the final criteria of that request are still in the domain (the biases that ran do not touch the
+    ELECTRE criteria), so the credibilities are in [0,1] -/
+example : (match Rdm.decide id e2emExElectre e2eExSeeds with
+    | .ok resp => (match resp.final.mp with
+        | .electre ec _ => e2emGuardB resp.final.crit ec && !resp.final.crit.isEmpty
+        | _ => false)
+    | .error _ => false) = true := by decide +kernel
 
 /-- the constants and names this property depends on were re-read from the working tree on this run
     (none fell back to its pinned value because its declaration could not be located) -/
